@@ -144,7 +144,7 @@ func init() {
 	register("c02", func(args []string) int {
 		f := parseFlags("c02", args)
 		rep := newReport("C02", f)
-		rep.Rule = "random writer histories with read transactions begun at API boundaries and held open across later writer steps; every open reader re-reads its complete view (root + every page of the state committed at its Begin) at EVERY disk operation (page writes, syncs, header write, truncate, remap) and after every API call; commits reached with readers open block, a second goroutine verifies the readers while the commit waits, checks that no reader is admitted under Pending, then closes them; files include unbounded ones growing past the mapped size. Non-trivial: history with >= 1 reader verification at a disk op; distinct by op statistics."
+		rep.Rule = "random writer histories with read transactions begun at API boundaries and held open across later writer steps; every open reader re-reads its complete view (root + every page of the state committed at its Begin) at EVERY disk operation (page writes, syncs, header write, truncate, remap) and after every API call; commits reached with readers open block, a second goroutine verifies the readers while the commit waits, checks that no reader is admitted under Pending, then closes them; files include unbounded ones growing past the mapped size; directed: append-only / SetRoot-only / alloc+free commits with open readers that grow the file past its mapping (remap), readers keep the byte slices obtained before. Non-trivial: history with >= 1 reader verification at a disk op; distinct by op statistics."
 		if f.replay != "" {
 			rp, err := loadHistReplay(f.replay)
 			if err != nil {
@@ -161,6 +161,31 @@ func init() {
 		}
 		if f.n > 0 {
 			n = f.n
+		}
+		// directed: commits that do not touch any existing page (append-only, SetRoot-only, alloc + free) while readers
+		// are open; the append grows an unbounded file past its mapping (remap). The readers keep the byte slices they
+		// obtained before the commit.
+		for i := 0; i < 12; i++ {
+			grow := []int{70, 130, 20, 300}[i%4]
+			ops := []engine.Op{{Kind: "begin"}, {Kind: "alloc", N: 8}}
+			for k := 0; k < 8; k++ {
+				ops = append(ops, engine.Op{Kind: "setfull", P: k, Seed: 40 + k})
+			}
+			ops = append(ops, engine.Op{Kind: "setroot", P: 3}, engine.Op{Kind: "commit"},
+				engine.Op{Kind: "rbegin"}, engine.Op{Kind: "rbegin"}, engine.Op{Kind: "rread", R: 0}, engine.Op{Kind: "begin"})
+			switch i % 3 {
+			case 0: // append only
+				ops = append(ops, engine.Op{Kind: "alloc", N: grow}, engine.Op{Kind: "setfull", P: 8 + grow/2, Seed: 77}, engine.Op{Kind: "setfull", P: 8 + grow - 1, Seed: 78})
+			case 1: // append + new root
+				ops = append(ops, engine.Op{Kind: "alloc", N: grow}, engine.Op{Kind: "setfull", P: 9, Seed: 79}, engine.Op{Kind: "setroot", P: 9})
+			default: // append, free one of the old pages
+				ops = append(ops, engine.Op{Kind: "alloc", N: grow}, engine.Op{Kind: "setfull", P: 10, Seed: 80}, engine.Op{Kind: "free", P: 2})
+			}
+			ops = append(ops, engine.Op{Kind: "commit"}, engine.Op{Kind: "rbegin"}, engine.Op{Kind: "verify"},
+				engine.Op{Kind: "begin"}, engine.Op{Kind: "alloc", N: grow}, engine.Op{Kind: "commit"}, engine.Op{Kind: "rcloseall"}, engine.Op{Kind: "verify"})
+			cfg := engine.Config{PageSize: 1024, MaxSize: []uint64{0, 0, 1 << 20}[i%3], InitMetaArea: uint32(4 * (i % 2))}
+			c02History(rep, cfg, ops, int64(500+i), false)
+			rep.count("scenario:append-only-commit-with-open-readers", 1)
 		}
 		for i := 0; i < n; i++ {
 			hseed := r.Int63()
